@@ -23,7 +23,7 @@ RULE = (
     "Hypothesis RuleBasedStateMachine. Each history draws a pool of 3-6 inputs: generated programs (with and without "
     "macros; different programs reuse the same macro / label / coroutine / op names), programs with one injected "
     "static error (the call raises midway), multi-file macro workspaces (main file and its imported files, each also compiled as a top-level file with ONE compiler object per workspace), routine sets chosen to exercise the decompiler's memo table (nested loops, then switches with empty cases), and SSB routine sets of strata 1-3 (incl. ones that take the SsbScript "
-    "fallback). Rules: compile with a fresh compiler; compile the SsbScript text of a routine set with the SsbScript compiler; compile with ONE shared compiler instance; decompile fresh "
+    "fallback). Rules: compile with a fresh compiler; compile the SsbScript text of a routine set with the SsbScript compiler (fresh object, or ONE shared object that is also handed truncated texts which it rejects); compile with ONE shared compiler instance; decompile fresh "
     "objects; decompile the SAME op objects again; call convert() twice on the same decompiler; SsbScript-decompile the "
     "same op objects after the ExplorerScript decompiler used them; a sweep that decompiles every nested-loop input and then every empty-case-switch input of the pool; gc.collect(). Model: the result of every input "
     "(ops, offsets, routine table, text, serialized source maps, or the exception type and message) computed in a FRESH "
@@ -39,7 +39,7 @@ CASES = {"quick": 160, "thorough": 3000}
 SHARDS = 16
 NO_SHRINK = True  # the state machine run shrinks itself
 
-RULES = ["compile_fresh", "compile_shared", "decompile_fresh", "decompile_same_objects", "convert_twice", "ssbs_same_objects", "compile_ssbscript", "ws_main_fresh", "ws_main_shared", "ws_lib_shared", "memo_sweep", "gc"]
+RULES = ["compile_ssbscript_shared", "compile_fresh", "compile_shared", "decompile_fresh", "decompile_same_objects", "convert_twice", "ssbs_same_objects", "compile_ssbscript", "ws_main_fresh", "ws_main_shared", "ws_lib_shared", "memo_sweep", "gc"]
 
 _MODEL_CACHE: dict[str, dict] = {}
 
@@ -131,6 +131,7 @@ class HistoryRunner:
         self.pool = pool
         self.steps: list[list] = []
         self.shared_compiler = None
+        self.shared_ssbs_compiler = None
         self.objects: dict[int, tuple] = {}
         self.ws_compilers: dict[int, object] = {}
         self.decompilers: dict[int, object] = {}
@@ -214,6 +215,28 @@ class HistoryRunner:
         if ref.get("skip"):
             return None
         c = results.input_ssb(item)
+        if rule_name == "compile_ssbscript_shared":
+            # ONE SsbScript compiler object per history; odd draws hand it a damaged text first (the call raises)
+            if "ssbs_compile" not in ref:
+                return None
+            from explorerscript.ssb_script.ssb_converting.ssb_compiler import SsbScriptSsbCompiler
+
+            if self.shared_ssbs_compiler is None:
+                self.shared_ssbs_compiler = SsbScriptSsbCompiler()
+            text = ref["ssbs"]["text"]
+            if i % 2:
+                cut = text[: (len(text) * (1 + i % 5)) // 7]
+                want = results.ssbs_compile_result(cut)
+                got = results.ssbs_compile_result(cut, compiler=self.shared_ssbs_compiler)
+                self._note(k, "raised" in got)
+                # (the wording of ANTLR's syntax error for the same text depends on its prediction caches; the
+                # property speaks of ops, text and source maps - only the outcome is compared here)
+                want, got = ({kk: v for kk, v in d.items() if kk != "message"} for d in (want, got))
+                if want != got:
+                    return self._cmp(rule_name + ":damaged_text", k, want, got)
+            got = results.ssbs_compile_result(text, compiler=self.shared_ssbs_compiler)
+            self._note(k, "raised" in got)
+            return self._cmp(rule_name, k, ref["ssbs_compile"], got)
         if rule_name == "compile_ssbscript":
             if "ssbs_compile" not in ref:
                 return None
@@ -355,6 +378,10 @@ def run_shard(tier, seed, shard, n_cases, known_b):
         @rule(i=st.integers(0, 20))
         def compile_ssbscript(self, i):
             self._do("compile_ssbscript", i)
+
+        @rule(i=st.integers(0, 20))
+        def compile_ssbscript_shared(self, i):
+            self._do("compile_ssbscript_shared", i)
 
         @rule()
         def memo_sweep(self):
